@@ -109,7 +109,8 @@ structure St where
       tree and not deleted in the block cache (`State.IterateRange` does not see a record created
       in the running block; its values are read through the cache) -/
   iterVals : List Addr
-  /-- an allegation request against v exists (`CheckRequestExists`) -/
+  /-- an allegation request against v exists (`CheckRequestExists`; since d2f2af2 also one
+      opened earlier in the same block: `IterateRequests` uses `IterateRangeAll`) -/
   req : Addr → Bool
   /-- `purged_<v>`: last purge height, 0 = never -/
   purge : Addr → Int
